@@ -135,3 +135,49 @@ def seeded_randomness(mod, fn, callees):
         ok, detail = determinism([(mod, fn)] + [(mod, c) for c in callees], allow=('random',))(mods)
         return ok, f'random.seed(seed) at line {seed_line} precedes the first draw (line {first_draw}); ' + detail
     return check
+
+
+def solver_constants(mods):
+    """the contracts of the strategy routines assume floor == 6 and threshold == 1e-6: evaluated here from the real source by the
+    host interpreter (closed expressions over literals and the math module only): the threshold solve passes to Solver, the floor
+    Solver.__init__ derives from it, and the digit count hard-coded in PlayerTwo.value_iteration_rewards"""
+    import math
+    solve = _fn(mods, 'tad', 'StochasticGame.solve')
+    init = _fn(mods, 'tad', 'Solver.__init__')
+    p2 = _fn(mods, 'tad', 'PlayerTwo.value_iteration_rewards')
+    if None in (solve, init, p2):
+        return None, 'solve / Solver.__init__ / PlayerTwo.value_iteration_rewards not found'
+    thr = None
+    for x in ast.walk(solve):
+        if isinstance(x, ast.Call) and getattr(x.func, 'id', '') == 'Solver':
+            for kw in x.keywords:
+                if kw.arg == 'threshold':
+                    thr = kw.value
+            if thr is None and len(x.args) >= 2:
+                thr = x.args[1]
+            if thr is None:
+                d = [dflt for a, dflt in zip(init.args.args[::-1], init.args.defaults[::-1]) if a.arg == 'threshold']
+                thr = d[0] if d else None
+    if thr is None:
+        return False, 'cannot find the threshold solve passes to Solver'
+    def closed(e):
+        return all(isinstance(n, (ast.Constant, ast.BinOp, ast.UnaryOp, ast.operator, ast.unaryop, ast.Expression, ast.Call, ast.Attribute, ast.Name, ast.Load)) for n in ast.walk(e))
+    try:
+        tv = eval(compile(ast.Expression(thr), '<thr>', 'eval'), {'__builtins__': {}}, {})
+    except Exception as e:
+        return False, f'threshold expression is not a closed constant: {e}'
+    fl = None
+    for st in init.body:
+        if isinstance(st, ast.Assign) and isinstance(st.targets[0], ast.Attribute) and st.targets[0].attr == 'floor':
+            if not closed(st.value):
+                return False, 'floor is not computed by a closed expression'
+            fl = eval(compile(ast.Expression(st.value), '<floor>', 'eval'), {'__builtins__': {}, 'math': math, 'abs': abs, 'round': round, 'int': int}, {'threshold': tv})
+    digits = []
+    for x in ast.walk(p2):
+        if isinstance(x, ast.Call) and getattr(x.func, 'attr', '') == 'get_worst_strategies_reachability' and len(x.args) == 2:
+            try:
+                digits.append(ast.literal_eval(x.args[1]))
+            except Exception:
+                return False, 'digit count passed by PlayerTwo.value_iteration_rewards is not a literal'
+    ok = tv == 1e-06 and fl == 6 and digits == [6]
+    return ok, f'solve passes threshold={tv!r}; Solver.__init__ derives floor={fl!r}; PlayerTwo.value_iteration_rewards rounds to {digits} digits (the contracts require 1e-06 / 6 / [6])'
